@@ -288,6 +288,22 @@ theorem prefix_sibling_witness :
     (exportIter (specialOf none) (some "a".toList) (sampleTree.map render)).map (·.final)
       = ["in a".toList, "sub".toList, "sub/deep".toList] := by decide
 
+/-- why only the LEADING `subdir/` may be stripped: the selected directory's name
+recurs deeper inside it, exactly (`lib/vendor/lib/util`) and as the end of a
+longer name (`lib/mylib/mod`); the entries keep their place below the selection
+(`export_exact` proves this for every tree; this is the concrete instance) -/
+theorem recurring_name_witness :
+    (exportIter (specialOf none) (some "lib".toList)
+      (([ ⟨[], .dir, [], false, []⟩, ⟨["lib".toList], .dir, [], false, []⟩,
+          ⟨["lib".toList, "mylib".toList], .dir, [], false, []⟩,
+          ⟨["lib".toList, "vendor".toList], .dir, [], false, []⟩,
+          ⟨["lib".toList, "mylib".toList, "mod".toList], .file, [1], false, []⟩,
+          ⟨["lib".toList, "vendor".toList, "lib".toList], .dir, [], false, []⟩,
+          ⟨["lib".toList, "vendor".toList, "lib".toList, "util".toList], .file, [2], false, []⟩ ] : List CEnt).map
+        render)).map (·.final)
+      = ["mylib".toList, "vendor".toList, "mylib/mod".toList, "vendor/lib".toList, "vendor/lib/util".toList] := by
+  decide
+
 /-- **Root**: the members of an archive exported with root `r` are the
 members of the root-less archive with every name put under `r` -/
 theorem root_prefix (filt : Filter) (root : Str) (its : List Item)
